@@ -12,7 +12,8 @@ Text(c) == CASE c = "val" -> "5" [] c = "id" -> "a" [] c = "unit" -> "()" [] c =
              [] c = "cond" -> "?>" [] c = "else" -> "|>" [] c = "apply" -> "<~" [] c = "reapply" -> "^~" [] c = "and" -> "&&"
              [] c = "open" -> "(" [] c = "close" -> ")" [] c = "nopen" -> "{" [] c = "nclose" -> "}" [] c = "sopen" -> "[" [] c = "sclose" -> "]"
              [] c = "sep" -> ";" [] c = "blankline" -> "\n\n" [] c = "term" -> ";;" [] c = "suflen" -> ".|" [] c = "prefixid" -> "f`" [] c = "infixid" -> "`f`"
-SepText(s) == CASE s = "none" -> "" [] s = "blank" -> " " [] s = "annot" -> " @x " [] s = "nl" -> "\n" [] OTHER -> " "
+\* (annot0 / lineannot: an annotation / a comment line with NO blank before the next token)
+SepText(s) == CASE s = "none" -> "" [] s = "blank" -> " " [] s = "annot" -> " @x " [] s = "nl" -> "\n" [] s = "annot0" -> " @x" [] s = "lineannot" -> " @@ c\n" [] OTHER -> " "
 \* BALANCED = TRUE: only sequences whose brackets nest properly are grown and emitted (a much higher share of them is accepted
 \* by the pipeline, which is what C04 / C05 need); FALSE: every sequence (totality, C03)
 VARIABLES seq, stk
